@@ -211,6 +211,7 @@ def run(case: dict, ctx) -> dict:
             for _ in range(2):
                 a = max(0, e - rng.randrange(1, 70000))
                 reqs.append((a, rng.randrange(1, 140000)))
+    fault_retry_reads(v, model, reqs, rng, res, MECH, n=3)  # cold caches
     continuation_reads(v, model, reqs, rng, res, MECH)
     fault_retry_reads(v, model, reqs, rng, res, MECH)
     compare_reads(v, model, reqs, res, MECH, byte_cap=(40 if quick else 120) << 20)
